@@ -292,8 +292,39 @@ func propC12(g *G, n int) {
 func propC19canon(g *G, n int) {
 	for i := 0; i < n; i++ {
 		x := g.decimal()
-		for _, m := range cohort(x) {
+		co := cohort(x)
+		for _, m := range co {
 			emit(0, "Decimal.Canonical", []string{m.String()})
+		}
+		// a battery of value-determined operations on a few encodings of the same value: every line is judged
+		// against the Spec, which depends on the value only, so an encoding-dependent result shows on some member
+		y := g.related(x)
+		mode := sU64(uint64(g.mode()))
+		dp := sI64(g.dpFor(x))
+		for k := 0; k < 4 && k < len(co); k++ {
+			m := co[g.pick(len(co))]
+			if k == 0 {
+				m = co[len(co)-1]
+			}
+			ms := m.String()
+			for _, op := range []string{"Decimal.AddWithMode", "Decimal.SubWithMode", "Decimal.MulWithMode", "Decimal.QuoWithMode", "Decimal.QuoRemWithMode"} {
+				emit(0, op, []string{ms, y.String(), mode})
+				emit(0, op, []string{y.String(), ms, mode})
+			}
+			for _, op := range []string{"Decimal.Cmp", "Decimal.CmpAbs", "Decimal.Equal", "Compare", "Min", "Max"} {
+				emit(0, op, []string{ms, y.String()})
+			}
+			emit(0, "Decimal.Round", []string{ms, dp, mode})
+			emit(0, "Decimal.Ceil", []string{ms, dp})
+			emit(0, "Decimal.Floor", []string{ms, dp})
+			for _, op := range []string{"Decimal.Int64_", "Decimal.Uint64", "Frexp", "Decimal.IsZero", "Decimal.Sign", "Decimal.Float64", "Sqrt", "Cbrt"} {
+				emit(0, op, []string{ms})
+			}
+			apiCall(0, "api.String", []string{ms})
+			apiCall(0, "api.MarshalJSON", []string{ms})
+			apiCall(0, "api.Decompose", []string{ms, fmt.Sprint([]int{-1, 0, 8, 16, 40}[g.pick(5)])})
+			apiCall(0, "api.Int", []string{ms, []string{"nil", "12345", "-7"}[g.pick(3)]})
+			apiCall(0, "api.Rat", []string{ms, []string{"nil", "set"}[g.pick(2)]})
 		}
 	}
 }
